@@ -463,7 +463,13 @@ class Interp(object):
         if fn is sorted and isinstance(args[0], GuardedList):
             key = kwargs.get("key", lambda x: x)
             return GuardedList(sorted(args[0].items, key=lambda gx: key(gx[1])))
-        symbolic = any(is_sym(a) or isinstance(a, (SymObj, GuardedList, Choice)) for a in list(args) + list(kwargs.values()))
+        def symb(a):
+            if isinstance(a, (list, tuple)):
+                return any(symb(x) for x in a)
+            return is_sym(a) or isinstance(a, (SymObj, GuardedList, Choice))
+        symbolic = any(symb(a) for a in list(args) + list(kwargs.values()))
+        if fn in (len, list, tuple) and not any(is_sym(a) or isinstance(a, (GuardedList, Choice)) for a in args):
+            symbolic = False
         if not symbolic:
             if inspect.isfunction(fn) and getattr(fn, "__module__", None) == self.module.__name__ and False:
                 return self.call_function(fn, args, kwargs, pc)
